@@ -38,4 +38,59 @@ def k2(ctx, kr):
     kr.outside = ['panic freedom of code outside ironplc-dsl numeric kernels is decided by the mirsym kernels of this property']
     kr.exhaustive = True
 
-KERNELS = [k2]
+
+# ---------------------------------------------------------------------------------------------- K3 FixedPoint::parse never panics (long fractions)
+import time
+import z3
+from framework import fn_paths, Part, par_map, merge_part, replay_factory
+from mirsym.machine import *
+
+_CTX = None
+def _k3_job(job):
+    nw, nf = job
+    ctx = _CTX; part = Part()
+    P = ctx.program()
+    key = [k for k in P.items if k[0] == 'ironplc-dsl' and re.fullmatch(r'common::<impl at [^>]*>::parse', k[1]) and 'FixedPoint' in P.items[k].header]
+    if len(key) != 1: part.inconc('FixedPoint::parse: %d candidates' % len(key)); return part
+    M = Machine(P, max_steps=50_000_000); st = {}
+    def entry(M):
+        def digits(name, n):
+            out = []
+            for i in range(n):
+                b = M.fresh_bv('%s%d' % (name, i), 8); M.assume(z3.And(z3.UGE(b, 48), z3.ULE(b, 57))); out.append(b)
+            return out
+        st['w'] = digits('w', nw); st['f'] = digits('f', nf)
+        return M.call_fn(key[0], [Ref(Cell(Str(st['w'] + [46] + st['f'])))])
+    def on_path(M, pr):
+        part.paths += 1
+        if pr.inconclusive: part.inconc(pr.inconclusive); return
+        part.nontrivial += 1
+        if pr.panic:
+            s = z3.Solver(); s.add(*pr.pc); t1 = time.time(); r = s.check(); part.solver_s += time.time() - t1; part.queries += 1
+            if r == z3.sat:
+                m = s.model(); L = ''.join(chr(m.eval(x, True).as_long()) for x in st['w']) + '.' + ''.join(chr(m.eval(x, True).as_long()) for x in st['f'])
+                part.add('C04/K3/fixed-point-parse/%s' % re.sub(r'[^a-z]+', '-', pr.panic.msg.lower())[:40], 'FixedPoint::parse panics on %s: %s' % (L, pr.panic.msg[:60]), {'text': L}, ('fixed_point_panic', (L,)))
+        if len(part.samples) < 1: part.samples.append({'whole_digits': nw, 'fraction_digits': nf, 'outcome': 'panic' if pr.panic else ('Ok' if pr.result.disc == 0 else 'Err')})
+    M.explore(entry, on_path)
+    part.queries += M.stats['smt']; part.encoded = set(M.encoded); part.models = set(M.models_used)
+    return part
+
+@replay_factory('fixed_point_panic')
+def _replay_fp_panic(L):
+    def rp(ctx):
+        r = ctx.replay({'cmd': 'check', 'sources': [KC.program_with_time('T#%ss' % L)]})
+        return 'panic' in r, {'literal': 'T#%ss' % L, 'result': {k: v for k, v in r.items() if k != 'diagnostics'}}
+    return rp
+
+@kernel('K3 dsl.fixed_point_parse_no_panic')
+def k3(ctx, kr):
+    global _CTX
+    _CTX = ctx
+    jobs = [(1, n) for n in (1, 8, 15, 16, 17)] + [(20, 2), (21, 2)]
+    kr.bounds = 'texts W.F of symbolic digits with (|W|,|F|) in %s (around the 15-digit precision limit and the u64 limit)' % jobs
+    for part in par_map(_k3_job, jobs): merge_part(kr, part)
+    P = ctx.program()
+    kr.functions = fn_paths(P, getattr(kr, '_enc', set()))
+    kr.exhaustive = True
+
+KERNELS = [k2, k3]
